@@ -39,6 +39,7 @@ type c07Scn struct {
 	Transport string   `json:"transport,omitempty"` // "" (scripted pipe) | telnet | standard : a built-in transport, see c07real.go
 	OnClose   bool     `json:"onclose,omitempty"`
 	CloseErr  bool     `json:"closeerr,omitempty"` // the transport's Close reports an error (and closes all the same)
+	Poll      bool     `json:"poll,omitempty"`     // the transport's Read does not block (it polls): the read loop is responsive and leaves in time
 	Meet      string   `json:"meet,omitempty"`     // closes = 2 from two goroutines at once; both are held at this yield point until the other is there too (15 ms bound)
 }
 
@@ -166,7 +167,7 @@ func c07One(sc *c07Scn, idx int) verdict {
 		return c07Real(sc, idx)
 	}
 
-	name := fmt.Sprintf("%s/%s/closes=%d/%s/%s<%s/rd=%d/onclose=%v/closeerr=%v/meet=%s", sc.Driver, sc.State, sc.Closes, sc.CloseBeh, sc.Before, sc.After, sc.ReadDelay, sc.OnClose, sc.CloseErr, sc.Meet)
+	name := fmt.Sprintf("%s/%s/closes=%d/%s/%s<%s/rd=%d/onclose=%v/closeerr=%v/meet=%s", sc.Driver, sc.State, sc.Closes, sc.CloseBeh, sc.Before, sc.After, sc.ReadDelay, sc.OnClose, sc.CloseErr, sc.Meet) + fmt.Sprintf("/poll=%v", sc.Poll)
 	v := verdict{ID: idx, Variant: name, OK: true, Nontrivial: true}
 	sigBase := fmt.Sprintf("C07:%s:%s:closes=%d:%s", sc.Driver, sc.State, sc.Closes, sc.CloseBeh)
 
@@ -178,7 +179,7 @@ func c07One(sc *c07Scn, idx int) verdict {
 		rd = 40 * time.Microsecond
 	}
 
-	cfg := sessCfg{connTimeout: 300 * time.Millisecond, readDelay: rd, seg: simdev.Seg{Mode: "rand", Max: 9}, seed: int64(idx), closeBeh: sc.CloseBeh}
+	cfg := sessCfg{connTimeout: 300 * time.Millisecond, readDelay: rd, seg: simdev.Seg{Mode: "rand", Max: 9}, seed: int64(idx), closeBeh: sc.CloseBeh, poll: sc.Poll}
 	if sc.State == "inflight" {
 		// the operation in flight must be ended by Close, not by its own timer
 		cfg.connTimeout = 5 * time.Second
@@ -466,6 +467,18 @@ func c07One(sc *c07Scn, idx int) verdict {
 			fail(&v, sigBase+":inflight-op-hangs", "operation in flight during Close never returned")
 
 			return v
+		}
+	}
+
+	if sc.Poll {
+		// a read loop that looks at the done signal every few hundred microseconds leaves within the grace period: the transport
+		// is closed in the orderly way, never under a read that is still running
+		s.pipe.Lock()
+		under := s.pipe.CloseDuringRead
+		s.pipe.Unlock()
+
+		if under > 0 {
+			fail(&v, sigBase+":transport-closed-under-a-running-read", "the read loop was responsive (polling reads of 200 us), yet the transport's Close ran while a Read was under way (forced close without waiting for the loop); yield sequence %v", g.snapshot())
 		}
 	}
 
